@@ -2,7 +2,7 @@
 From Coq Require Import List NArith ZArith Bool PeanoNat Lia.
 Import ListNotations.
 From Mos Require Import model.I64 Gen.BinOps model.Expr Gen.OpcodeTable spec.Isa model.Encode.
-From Mos Require Import model.SymTab Gen.CodegenConsts model.Segment model.Asm proofs.AsmSim.
+From Mos Require Import model.SymTab Gen.CodegenConsts model.Segment model.Asm proofs.AsmProofs proofs.AsmSim.
 Open Scope Z_scope.
 
 (* ------------------------------------------------------------------ .if *)
@@ -53,14 +53,16 @@ Definition iteration (rec : token -> M unit) (e : lexpr) (lsc : ident) (b : bloc
 Theorem loop_meaning fuel e lsc b c :
   emit_token (S fuel) (TLoop e lsc b) c =
   match evaluate_expression_as_i64 e c with
-  | Ret (Some n) c1 => loop_iterations fuel loop_first_index n (iteration (emit_token fuel) e lsc b) c1
+  | Ret (Some n) c1 => if loop_iteration_limit <? n then Abort FUnsupported
+                       else loop_iterations fuel loop_first_index n (iteration (emit_token fuel) e lsc b) c1
   | Ret None c1 => Ret tt c1
   | Err ds c1 => Err ds c1
   | Abort f => Abort f
   end.
 Proof.
   cbn [emit_token emit_token_body]. unfold bind at 1.
-  destruct (evaluate_expression_as_i64 e c) as [[n|] c1|ds c1|f]; reflexivity.
+  destruct (evaluate_expression_as_i64 e c) as [[n|] c1|ds c1|f]; try reflexivity.
+  destruct (loop_iteration_limit <? n); reflexivity.
 Qed.
 
 Lemma loop_iterations_step fuel i n body :
@@ -158,6 +160,7 @@ Proof.
     destruct (negb (z =? 0)); [exact L0|]. destruct e; [apply sim_emit_tokens; apply sim_emit_token|apply sim_ret].
   - intros e lsc lp rp. cbn [emit_token emit_token_body blk_inner blk_lparen blk_rparen].
     apply sim_bind; [apply sim_eval_i64|intros n]. destruct n; [|apply sim_ret].
+    destruct (loop_iteration_limit <? z); [apply sim_abort|].
     apply sim_loop_iterations. intro i. unfold with_scope.
     apply sim_get_bind; intros c c' H.
     assert (HS : current_scope c = current_scope c' /\ current_scope_nx c = current_scope_nx c') by (unfold E, core in H; inversion H; auto).
@@ -176,3 +179,95 @@ Qed.
 (* every statement is equivalent to itself: the ghost log never influences the assembly *)
 Theorem ghost_independent fuel toks c c' : E c c' -> pass_rel (run_pass fuel toks c) (run_pass fuel toks c').
 Proof. apply run_pass_core. Qed.
+
+(* ------------------------------------------------------------------ constants: uses replaced by the parenthesised definition *)
+Fixpoint subst_with (sigma : ipath -> option expr) (e : expr) : expr :=
+  match e with
+  | EBin op l r => EBin op (subst_with sigma l) (subst_with sigma r)
+  | EId p None fnot fneg => match sigma p with Some d => EParens d fnot fneg | None => e end
+  | EParens i a b => EParens (subst_with sigma i) a b
+  | other => other
+  end.
+
+(* exact guard: a name may be replaced by (d) in an environment in which the name is a number and d evaluates to that
+   very number -- i.e. the free symbols of d mean at the use what they meant at the definition, and d has a value *)
+Definition subst_guard (en : env) (sigma : ipath -> option expr) : Prop :=
+  forall p d, sigma p = Some d -> exists v, lookup en p = Some (DNum v) /\ eval en d = EVal (Some (SNum v)).
+
+Theorem const_subst en sigma : subst_guard en sigma -> forall e, eval en (subst_with sigma e) = eval en e.
+Proof.
+  intros G e. induction e using expr_ind2; cbn [subst_with eval]; try reflexivity.
+  - rewrite IHe1, IHe2. reflexivity.
+  - destruct b as [md|]; [reflexivity|]. destruct (sigma a) as [d0|] eqn:S; [|reflexivity].
+    destruct (G a d0 S) as (v & L & Ev). cbn [eval]. rewrite L, Ev. reflexivity.
+  - rewrite IHe. reflexivity.
+Qed.
+
+(* ------------------------------------------------------------------ imports *)
+(* what an import does: the parameter block and the file's statements in the scope `import_scope` (with the block's
+   symbols when there is a parameter block), then the export step of its form *)
+Definition import_body (rec : token -> M unit) (isc : ident) (b : option block) (toks : list token) : M unit :=
+  with_scope isc b ((match b with Some b => emit_tokens rec (blk_inner b) | None => ret tt end) ;;; emit_tokens rec toks).
+
+Theorem import_all_meaning fuel star isc b toks c :
+  emit_token (S fuel) (TImport (ImportAll star None) isc b (Some toks)) c =
+  (import_body (emit_token fuel) isc b toks ;;;
+   c1 <- get ;;
+   match try_index (symbols c1) (current_scope_nx c1) [isc] with
+   | None => ret tt
+   | Some import_nx =>
+       (* every name of the file that is not special (`-`, `+`, `$..`) becomes visible in the importing scope *)
+       do_exports (map (fun ch => (snd ch, current_scope_nx c1, [fst ch], star))
+                       (filter (fun ch => negb (is_special (fst ch))) (children (symbols c1) import_nx)))
+   end) c.
+Proof.
+  cbn [emit_token emit_token_body]. unfold import_body, bind, get.
+  destruct (with_scope isc b _ c) as [u c1|ds c1|f]; try reflexivity;
+  try (destruct (try_index (symbols c1) (current_scope_nx c1) [isc]); reflexivity).
+Qed.
+
+Theorem import_as_meaning fuel star p psp isc b toks c :
+  emit_token (S fuel) (TImport (ImportAll star (Some (p, psp))) isc b (Some toks)) c =
+  (import_body (emit_token fuel) isc b toks ;;;
+   c1 <- get ;;
+   match try_index (symbols c1) (current_scope_nx c1) [isc] with
+   | None => ret tt
+   | Some import_nx =>
+       (* the names become visible under the namespace p of the importing scope *)
+       scope_nx <- import_as_scope p ;;
+       c2 <- get ;;
+       do_exports (map (fun ch => (snd ch, scope_nx, [fst ch], psp))
+                       (filter (fun ch => negb (is_special (fst ch))) (children (symbols c2) import_nx)))
+   end) c.
+Proof.
+  cbn [emit_token emit_token_body]. unfold import_body, bind, get.
+  destruct (with_scope isc b _ c) as [u c1|ds c1|f]; try reflexivity;
+  try (destruct (try_index (symbols c1) (current_scope_nx c1) [isc]); reflexivity).
+Qed.
+
+Theorem import_specific_meaning fuel items isc b toks c :
+  emit_token (S fuel) (TImport (ImportSpecific items) isc b (Some toks)) c =
+  (import_body (emit_token fuel) isc b toks ;;;
+   c1 <- get ;;
+   match try_index (symbols c1) (current_scope_nx c1) [isc] with
+   | None => ret tt
+   | Some import_nx =>
+       (* each listed name that the file defines becomes visible under its own name or its alias; a missing one is flagged undefined *)
+       l <- specific_exports import_nx items ;; do_exports l
+   end) c.
+Proof.
+  cbn [emit_token emit_token_body]. unfold import_body, bind, get.
+  destruct (with_scope isc b _ c) as [u c1|ds c1|f]; try reflexivity;
+  try (destruct (try_index (symbols c1) (current_scope_nx c1) [isc]); reflexivity).
+Qed.
+
+(* an export makes the name resolve to the imported symbol itself (same node, hence same value) from the target scope *)
+Theorem export_visible (t : symtab symbol) x parent name t' :
+  is_super name = false -> export t x parent [name] = (t', true) ->
+  try_index t' parent [name] = Some x /\ nodes t' = nodes t.
+Proof.
+  intros NS. unfold export, split_last. cbn [removelast last ensure_index].
+  destruct (existsb _ (edges t)); [discriminate|]. intro H. inversion H; subst t'. clear H.
+  cbn [try_index]. rewrite NS. unfold child, add_edge. cbn [edges child_in nodes].
+  rewrite Nat.eqb_refl. assert (R : ident_eqb name name = true) by (apply text_eqb_refl). rewrite R. cbn [andb]. auto.
+Qed.
